@@ -77,9 +77,19 @@ def snapshot_arrays(ds):
 
 
 def check_arrays(snap, where):
+    """
+    Purity of the argument arrays is C20's statement, not C12's: it is not judged here (C20's
+    history machine calls cross_val_score / train_test_split / SplineCV on guarded arrays).  A
+    modified array would make every later comparison of this run meaningless, so the run stops
+    being evaluated - it is reported as a probe, never as a C12 violation.
+    """
     for a, raw, shape, dtype in snap:
         if a.shape != shape or a.dtype != dtype or a.tobytes() != raw:
-            raise Violation("argument-array-modified", f"{where}: an argument array was modified")
+            raise ArgumentsChanged(where)
+
+
+class ArgumentsChanged(Exception):
+    pass
 
 
 def estimator_state(est):
@@ -694,10 +704,6 @@ def run_tts(tape, stats):
         if tr_lab & te_lab:
             raise Violation("tts-blocks", f"blocks {sorted(tr_lab & te_lab)} occur in both train and test")
         stats["probes"]["tts_blocked_checked"] = 1
-    # repeatable for the same random_state
-    train2, test2 = vd.train_test_split(ds.coordinates, ds.data_arg(), ds.weights_arg(), **kwargs)
-    if not np.array_equal(rows(train2), rtrain) or not np.array_equal(rows(test2), rtest):
-        raise Violation("tts-repeatable", "same random_state gave a different split")
 
 
 def model_block_labels(ds, kwargs):
@@ -741,6 +747,8 @@ def run(tape, opts=None):
     except Violation as v:
         v.trace = violation_trace(stats)
         raise
+    except ArgumentsChanged:
+        stats["probes"]["argument_arrays_changed_not_judged_here"] = 1
     return finish(stats, op)
 
 
